@@ -610,6 +610,12 @@ class EQLTranslator:
             extractor = DomainValueExtractor(self.session)
             return extractor.extract_from_variable(operand)
 
+        if isinstance(operand, SymbolicExpression):
+            # calls, indexing, flattening, ... cannot be expressed as a column or a bound value
+            raise UnsupportedQueryTypeError(
+                f"Unsupported comparator operand: {type(operand)}"
+            )
+
         return operand
 
     def _handle_contains_operator(
